@@ -173,6 +173,11 @@ def gen_C09(tier, rng):
     for d in ALL:
         B, H = block_of(d), out_of(d)
         isb = d.startswith("blake2")
+        # Digest::input_str / result_str (hex convenience API) on ASCII strings across the padding boundaries
+        for n in sorted({0, 1, 3, B - 9, B - 1, B, B + 1, 2 * B + 5} - {-1, -9}):
+            if n >= 0:
+                txt = bytes(0x20 + rng.randrange(95) for _ in range(n))
+                yield (f"dig.str {d} {hx(txt)}", f"digstr.{d}")
         for p in _directed(rng, B):
             yield (f"dig.obj {d} {p}", f"digobj.{d}.directed")
         alpha = ["i", "i", "R", "W", "r", "o", "Wn", "c", "x"]
